@@ -1,6 +1,18 @@
+"""Maps a property id to the module that checks it.  A module exposes
+check(tier) -> exit code and replay(path) -> exit code."""
+import importlib
+
 import seqcheck
 
 SEQ = {"C01", "C02", "C03", "C05", "C07", "C14"}
+
+# property id -> module name in tools/
+MODULES = {
+    "C04": "queuecheck", "C06": "subscheck", "C08": "faultcheck", "C09": "rpcsynccheck",
+    "C10": "rpcdiffcheck", "C12": "racecheck", "C13": "disposecheck", "C15": "supervisorcheck",
+    "C16": "debuggercheck", "C17": "historycheck", "C18": "pipescheck", "C19": "schemascheck",
+    "C20": "apicheck",
+}
 
 
 def run(prop, tier, replay):
@@ -10,5 +22,14 @@ def run(prop, tier, replay):
         if prop == "C11":
             return seqcheck.check_c11(tier)
         return seqcheck.check(prop, tier)
+    if prop in MODULES:
+        try:
+            mod = importlib.import_module(MODULES[prop])
+        except ModuleNotFoundError:
+            print("check for %s is not built yet" % prop)
+            return 2
+        if replay:
+            return mod.replay(replay)
+        return mod.check(tier)
     print("unknown property", prop)
     return 2
